@@ -14,12 +14,17 @@ from __future__ import annotations
 
 import ast
 import inspect
+import itertools
+import json
+import os
 import signal
+import subprocess
 import sys
 import textwrap
+import time
 from pathlib import Path
 
-from harness.translate import c01_tables
+from harness.translate import c01_dispatch, c01_tables
 
 ID = "C01"
 LEVEL_TEXT = ("Theorems for all statement lists of an abstract statement language (def/class/assign/annassign/__all__ +=/import/from-import/if/"
@@ -38,8 +43,8 @@ LEVEL_NOTE = ("Trusted: Coq kernel, extraction, translator harness/translate/c01
               "membership and labels is kept), annotation forwarding, members of functions (discarded by the model, not compared). The surviving-kind "
               "theorems exclude accessor decorators (x.setter: C02). Label and docstring content has no theorem; it is "
               "covered by correspondence and direct checks only. Source text <-> ast positions are CPython's.")
-MODEL = ("Model.C01_visitor", "run_C01")
-COQ_TARGETS = ["Proofs/C01_visitor.vo", "Proofs/C01_vis.vo"]
+MODEL = ("Model.C01_run", "run_C01_all")
+COQ_TARGETS = ["Proofs/C01_visitor.vo", "Proofs/C01_vis.vo", "Proofs/C01_content.vo", "Proofs/C01_raw.vo", "Model/C01_run.vo"]
 RULE = ("seeded random structural modules (nesting <=4; name pool of 11 (incl. _t__, z__) with forced duplicates; decorators from the label tables, overload, "
         "accessor, unknown; docstrings in every legal position incl. attribute docstrings, after if/for/try bodies, also parenthesised over several lines, "
         "concatenated across lines or followed by a comment line; conditional placement in "
@@ -60,6 +65,7 @@ TC_TESTS = {"TYPE_CHECKING", "typing.TYPE_CHECKING"}
 
 def translate(ctx):
     c01_tables.translate(ctx)
+    c01_dispatch.translate(ctx)
 
 
 # =====================================================================================================================
@@ -211,11 +217,85 @@ class Abstraction:
 
 
 def abstract_module(src: str, mname: str, is_init: bool):
+    """The harness's own lowering ast -> stmt (kept as a cross-check of the Coq lowering of raw nodes, see raw_module)."""
     tree = ast.parse(src)
     ab = Abstraction(mname, is_init)
     stmts = ab.stmts(tree.body, top=True)
     tree._c01_import_map = dict(ab.import_map)
     return stmts, tree
+
+
+STATEMENT_FIELDS = ("body", "handlers", "orelse", "finalbody", "cases")
+
+
+class RawAbstraction(Abstraction):
+    """ast -> raw nodes tagged with their class names (Model/C01_raw.v).  Which kinds are visited by a visit_ method,
+    which targets have a name, what is conditional: decided in Coq from the regenerated Gen/C01_dispatch.v.  Here only
+    the payload each handler reads is taken off the node."""
+
+    def rtarget(self, node):
+        if isinstance(node, ast.Name):
+            return ["Name", node.id, []]
+        if isinstance(node, ast.Attribute):
+            return ["Attribute", node.attr, [self.rtarget(node.value)]]
+        return [type(node).__name__, "", []]
+
+    def _is_all(self, t):
+        return (isinstance(t, ast.Name) and t.id == "__all__") or \
+               (isinstance(t, ast.Attribute) and t.attr == "__all__" and isinstance(t.value, ast.Name) and t.value.id == "self")
+
+    def payload(self, s, top):
+        if isinstance(s, (ast.FunctionDef, ast.AsyncFunctionDef, ast.ClassDef)):
+            decos = [self.deco(d) for d in s.decorator_list]
+            dln = s.decorator_list[0].lineno if s.decorator_list else s.lineno
+            return ["class" if isinstance(s, ast.ClassDef) else "def", s.lineno, dln, s.end_lineno, s.name, decos]
+        if isinstance(s, ast.Assign):
+            items = self.all_items(s.value) if any(self._is_all(t) for t in s.targets) else []
+            return ["assign", s.lineno, s.end_lineno, [self.rtarget(t) for t in s.targets], items]
+        if isinstance(s, ast.AnnAssign):
+            items = self.all_items(s.value) if self._is_all(s.target) else []
+            return ["ann", s.lineno, s.end_lineno, self.rtarget(s.target), s.value is not None, self.is_classvar(s.annotation), items]
+        if isinstance(s, ast.AugAssign):
+            flag = isinstance(s.target, ast.Name) and s.target.id == "__all__" and isinstance(s.op, ast.Add)
+            return ["aug", flag, self.all_items(s.value) if flag else []]
+        if isinstance(s, (ast.Import, ast.ImportFrom)):
+            old = self.stmt(s, top)             # import names / paths (also feeds the module-level import map)
+            return [old[0], old[1], old[2], old[3]]
+        if isinstance(s, ast.If):
+            return ["if", ast.unparse(s.test)]
+        if isinstance(s, ast.Expr) and isinstance(s.value, ast.Constant) and isinstance(s.value.value, str):
+            return ["doc", s.value.lineno, s.value.end_lineno]
+        return ["none"]
+
+    def rnode(self, s, top=False):
+        pay = self.payload(s, top)
+        fields = []
+        for fname in s._fields:
+            if fname in STATEMENT_FIELDS:
+                v = getattr(s, fname, None)
+                if isinstance(v, list):
+                    fields.append([self.rnode(x) for x in v])
+        return [type(s).__name__, pay, fields]
+
+
+def raw_module(src: str, mname: str, is_init: bool):
+    tree = ast.parse(src)
+    ab = RawAbstraction(mname, is_init)
+    raw = [ab.rnode(s, top=True) for s in tree.body]
+    tree._c01_import_map = dict(ab.import_map)
+    return raw, tree
+
+
+def model_views(ctx, items):
+    """items: (source, mname, is_init) -> per item [visit, spec, bindings, content] computed by the extracted model from
+    the RAW nodes (lowered in Coq by the regenerated dispatch tables), plus the parsed trees."""
+    raws, trees = [], []
+    for src, mname, is_init in items:
+        r, t = raw_module(src, mname, is_init)
+        raws.append(r)
+        trees.append(t)
+    outs = ctx.model([["raw", mname, r] for (src, mname, is_init), r in zip(items, raws)])
+    return outs, trees
 
 
 # =====================================================================================================================
@@ -272,9 +352,13 @@ def _alarm(signum, frame):
     raise Timeout()
 
 
+HISTORY: list[dict] = []      # every module handed to griffe.visit in this process, in order (see history_triage)
+
+
 def run_griffe(src: str, mname: str, filepath: Path, record=True):
     """Returns (module, recorder). Raises whatever griffe raises; a hang becomes Timeout."""
     import griffe
+    HISTORY.append({"source": src, "mname": mname, "is_init": filepath.name == "__init__.py"})
     rec = Recorder.make() if record else None
     lc = griffe.LinesCollection()
     lc[filepath] = src.splitlines(keepends=False)
@@ -310,10 +394,12 @@ def impl_obj(name, o):
     if o.is_alias:
         return [name, "alias", o.alias_lineno, o.alias_endlineno, o.runtime, [], [], o.target_path, [], [], []]
     kind = o.kind.value
-    doc = [o.docstring.lineno] if o.docstring is not None else []
-    members = [impl_obj(n, m) for n, m in o.members.items()] if kind == "class" else []
-    imports = [[k, v] for k, v in o.imports.items()] if kind == "class" else []
-    ex = export_items(o.exports) if kind == "class" else None
+    doc = [[o.docstring.lineno, o.docstring.endlineno]] if o.docstring is not None else []
+    # function objects too: the __init__ of a class keeps what its body binds (defs, classes, imports) as its members
+    scope = kind in ("class", "function")
+    members = [impl_obj(n, m) for n, m in o.members.items()] if scope else []
+    imports = [[k, v] for k, v in o.imports.items()] if scope else []
+    ex = export_items(o.exports) if scope else None
     return [name, kind, o.lineno, o.endlineno, o.runtime, sorted(o.labels), doc, "", members, imports, [] if ex is None else [ex]]
 
 
@@ -368,9 +454,67 @@ def impl_view(mod, rec):
     members = [impl_obj(n, m) for n, m in mod.members.items()]
     imports = [[k, v] for k, v in mod.imports.items()]
     ex = export_items(mod.exports)
-    doc = [mod.docstring.lineno] if mod.docstring is not None else []
+    doc = [[mod.docstring.lineno, mod.docstring.endlineno]] if mod.docstring is not None else []
     evs, perr = impl_events(rec.calls)
     return ["ok", doc, members, imports, [] if ex is None else [ex], evs], perr
+
+
+def impl_table(o):
+    """Ordered member table of a module / class / function object, same shape as the model's enc_table."""
+    out = []
+    for n, m in o.members.items():
+        if m.is_alias:
+            out.append([n, "alias", m.alias_lineno, m.alias_endlineno, m.runtime, [], [], m.target_path])
+        else:
+            doc = [[m.docstring.lineno, m.docstring.endlineno]] if m.docstring is not None else []
+            out.append([n, m.kind.value, m.lineno, m.endlineno, m.runtime, sorted(m.labels), doc, ""])
+    return out
+
+
+def norm_table(t):
+    return [[e[0], e[1], e[2], e[3], e[4], sorted(e[5]), e[6], e[7]] for e in t]
+
+
+def walk_scopes(mod):
+    """Every class and function object reachable through members (also through the members of function objects)."""
+    def rec(o):
+        for m in o.members.values():
+            if not m.is_alias and m.kind.value in ("class", "function"):
+                yield m
+                yield from rec(m)
+    yield from rec(mod)
+
+
+def content_check(ctx, mc, mod, small):
+    """The declarative member tables (spec side of theorems C01_member_table, _nested, C01_init_function_members) vs the
+    implementation: module table, the table of every class object and of every __init__ function object in the tree."""
+    table, nested = mc
+    d = first_diff(norm_table(table), impl_table(mod), "$module")
+    if d:
+        ctx.tie_failure("correspondence", "declarative member table (run_table level_details) vs griffe.visit: module level", d, small)
+    entries = {}
+    for kind, path, line, t in nested:
+        entries[(kind, path, line)] = t          # a later statement with the same key cannot exist (one statement per line)
+    for o in walk_scopes(mod):
+        kind = o.kind.value
+        if kind == "function":
+            if not (o.name == "__init__" and o.parent is not None and o.parent.kind.value == "class"):
+                if o.members:
+                    ctx.property_failure(small, f"function object {o.path} (not a class's __init__) has members {list(o.members)}")
+                continue
+            key = ("init", o.path, o.lineno)
+        else:
+            key = ("class", o.path, o.lineno)
+        t = entries.get(key)
+        if t is None:
+            ctx.tie_failure("correspondence", "declarative member tables: no class / __init__ statement for an object of the tree", list(key), small)
+            continue
+        d = first_diff(norm_table(t), impl_table(o), "$" + o.path)
+        if d:
+            ctx.tie_failure("correspondence", f"declarative member table vs griffe.visit: {key[0]} level", d, small)
+        ctx.count("content_tables_compared")
+        if kind == "function" and o.members:
+            ctx.observe("branch", "init-function-members")
 
 
 def norm_model_result(r):
@@ -397,10 +541,11 @@ CLASS_DECOS = ["dataclasses.dataclass", "deco", "dataclasses.dataclass(frozen=Tr
 
 
 class Gen:
-    def __init__(self, rng, executable: bool, maxdepth: int = 4):
+    def __init__(self, rng, executable: bool, maxdepth: int = 4, profile: str = "structural"):
         self.rng = rng
         self.exe = executable
         self.maxdepth = maxdepth
+        self.profile = profile
         self.lines: list[str] = []
         self.k = 0
         self.features: set[str] = set()
@@ -629,7 +774,9 @@ class Gen:
         for d in decos:
             self.emit(ind, "@" + d)
             self.features.add("deco:" + d.split("(")[0].split(".")[-1])
-        is_async = self.rng.random() < 0.12
+        is_async = self.rng.random() < (0.5 if self.profile == "history" else 0.12)
+        if is_async:
+            self.features.add("async" + ("-decorated" if decos else ""))
         self.emit(ind, ("async " if is_async else "") + f"def {name}(self=None, *args):")
         sub = "init" if (kind == "class" and name == "__init__") else "func"
         if sub == "init" or self.rng.random() < 0.35:
@@ -724,7 +871,7 @@ class Gen:
         if self.rng.random() < 0.15:
             pre.insert(0, "from __future__ import annotations")
         self.lines += pre
-        for _ in range(self.rng.randint(2, 7)):
+        for _ in range(self.rng.randint(2, 7) if self.profile != "history" else self.rng.randint(1, 4)):
             self.statement("module", 0, 0)
         return "\n".join(self.lines) + "\n"
 
@@ -732,9 +879,9 @@ class Gen:
 # =====================================================================================================================
 # correspondence: model vs implementation
 # =====================================================================================================================
-def gen_case(rng, idx):
+def gen_case(rng, idx, profile="structural"):
     exe = rng.random() < 0.5
-    g = Gen(rng, executable=exe)
+    g = Gen(rng, executable=exe, maxdepth=4 if profile == "structural" else 2, profile=profile)
     src = g.module()
     is_init = (not exe) and rng.random() < 0.3
     mname = "m"
@@ -1599,6 +1746,215 @@ def replay_witnesses(ctx):
 
 
 # =====================================================================================================================
+# process history: the result of griffe.visit must be a function of the source, whatever was visited before
+# =====================================================================================================================
+# Static extraction keeps no state between modules, so a module's tree may not depend on the modules visited earlier in
+# the same process.  Three pieces keep such history effects covered by construction rather than by luck:
+#  * history_stream: sequences of small modules rich in state-carrying features (decorated coroutines, overloads,
+#    property/setter idioms, __all__) are visited one after the other in ONE FRESH interpreter, each sequence also in
+#    a second order, and every result is compared with the model (order-independent by construction) and the direct checks;
+#  * history_triage: whenever any stream sees a failure, the failing module is re-evaluated alone in a fresh interpreter;
+#    if it passes there, the failure depends on the history, and the list of modules visited before it is minimised
+#    (delta debugging, one fresh interpreter per test) into a self-contained failing HISTORY, which is what gets reported;
+#  * replay understands such a history input.
+_ISO_COUNTER = itertools.count()
+
+
+def _entry(case):
+    return {"source": case["source"], "mname": case.get("mname", "m"), "is_init": bool(case.get("is_init", False))}
+
+
+def evaluate_step(step, scratch):
+    """Visit one module in this process; when asked, evaluate it against the expected (model) view and the direct checks."""
+    c = {"source": step["source"], "mname": step.get("mname", "m"), "is_init": bool(step.get("is_init", False)),
+         "executable": bool(step.get("executable", False)), "features": []}
+    res = {"raised": None, "view_diff": None, "fails": []}
+    try:
+        tree = abstract_module(c["source"], c["mname"], c["is_init"])[1]
+        mod, rec = run_griffe(c["source"], c["mname"], filepath_for(scratch, c))
+    except Exception as e:  # noqa: BLE001
+        res["raised"] = f"{type(e).__name__}: {e}"
+        return res
+    if not step.get("check"):
+        return res
+    iv, perr = impl_view(mod, rec)
+    if step.get("expected") is not None:
+        res["view_diff"] = first_diff(step["expected"], json.loads(json.dumps(iv)))
+    fails = direct_checks(c, tree, mod, rec) + event_checks(mod, rec)
+    if c["executable"]:
+        fails += runtime_checks(c, tree, mod) or []
+    res["fails"] = [[n, d, f] for n, d, f in fails]
+    return res
+
+
+def _iso_main():
+    """Entry point of the fresh interpreter: python -c 'from harness.props import c01; c01._iso_main()' <steps.json>"""
+    import warnings
+    warnings.simplefilter("ignore")
+    data = json.loads(Path(sys.argv[1]).read_text())
+    scratch = Path(data["scratch"])
+    out = [evaluate_step(st, scratch) for st in data["steps"]]
+    sys.stdout.write("\n" + json.dumps(out) + "\n")
+
+
+def iso_run(scratch, steps, timeout=600):
+    """Run the steps in a fresh interpreter (same tree under test); None when the interpreter itself failed."""
+    from harness.common.framework import REPO, VERIF
+    scratch = Path(scratch)
+    scratch.mkdir(parents=True, exist_ok=True)
+    p = scratch / f"iso-{os.getpid()}-{next(_ISO_COUNTER)}.json"
+    p.write_text(json.dumps({"scratch": str(scratch), "steps": steps}))
+    env = dict(os.environ, PYTHONPATH=f"{REPO}/src:{VERIF}", PYTHONHASHSEED="0")
+    try:
+        r = subprocess.run([sys.executable, "-c", "from harness.props import c01; c01._iso_main()", str(p)],
+                           capture_output=True, text=True, env=env, timeout=timeout, cwd=str(VERIF))
+    except subprocess.TimeoutExpired:
+        return None
+    finally:
+        p.unlink(missing_ok=True)
+    if r.returncode != 0 or not r.stdout.strip():
+        return None
+    try:
+        return json.loads(r.stdout.strip().splitlines()[-1])
+    except ValueError:
+        return None
+
+
+def step_failed(res):
+    """A step fails when griffe raised, the tree differs from the model's, or a direct check fails outside the known findings."""
+    return bool(res["raised"] or res["view_diff"] or any(f[2] is None for f in res["fails"]))
+
+
+def step_detail(res):
+    if res["raised"]:
+        return "griffe.visit raised " + res["raised"]
+    for n, d, f in res["fails"]:
+        if f is None:
+            return f"{n}: {d}"
+    return "tree differs from the model: " + str(res["view_diff"])
+
+
+def ddmin(items, test, budget=80, deadline=None):
+    """Delta debugging: a small sublist (order kept) on which test() still holds."""
+    n = 2
+    calls = 0
+    while len(items) >= 2:
+        if calls >= budget or (deadline is not None and time.time() > deadline):
+            break
+        chunk = max(1, len(items) // n)
+        subsets = [items[i:i + chunk] for i in range(0, len(items), chunk)]
+        reduced = False
+        for sub in subsets:                       # reduce to a subset
+            calls += 1
+            if test(sub):
+                items, n, reduced = sub, 2, True
+                break
+        if not reduced and n > 2:
+            for i in range(len(subsets)):         # reduce to a complement
+                comp = [x for j, sub in enumerate(subsets) if j != i for x in sub]
+                calls += 1
+                if test(comp):
+                    items, n, reduced = comp, max(n - 1, 2), True
+                    break
+        if not reduced:
+            if n >= len(items):
+                break
+            n = min(len(items), n * 2)
+    return items
+
+
+def history_triage(ctx, target_step, history):
+    """Classify a failure seen in-process: ("isolated", None) reproduces alone in a fresh interpreter;
+    ("history", [entries]) passes alone but fails after the minimised history; ("unreproducible", None) otherwise."""
+    t0 = time.time()
+    target = dict(target_step, check=True)
+    r = iso_run(ctx.scratch, [target])
+    if r is not None and step_failed(r[-1]):
+        return "isolated", None, r[-1]
+    last = {}
+
+    def test(sub):
+        rr = iso_run(ctx.scratch, [dict(_entry(h), check=False) for h in sub] + [target])
+        ok = rr is not None and step_failed(rr[-1])
+        if ok:
+            last["res"] = rr[-1]
+        return ok
+    hist = []
+    seen = set()
+    for h in history:                             # a module visited twice counts at its first position
+        if h["source"] not in seen:
+            seen.add(h["source"])
+            hist.append(h)
+    if not test(hist):
+        return "unreproducible", None, None
+    minimal = ddmin(hist, test, deadline=t0 + 240)
+    test(minimal)
+    ctx.count("history_triage_seconds", int(time.time() - t0))
+    return "history", minimal, last.get("res")
+
+
+def report_history_failure(ctx, case, minimal, res, where):
+    ctx.observe("direct_fail", "history-dependent")
+    ctx.property_failure({"history": [h["source"] for h in minimal], "history_is_init": [h["is_init"] for h in minimal],
+                          "source": case["source"], "is_init": case["is_init"], "mname": case["mname"]},
+                         f"history-dependent ({where}): visited alone in a fresh interpreter the module passes; after visiting the "
+                         f"{len(minimal)} listed module(s) in the same process: " + (step_detail(res) if res else "it fails"))
+    ctx.c01_tainted = True
+
+
+def history_stream(ctx):
+    """Sequences of modules visited in one fresh interpreter, each sequence in two orders; every visit checked."""
+    nseq = ctx.budget(24, 240)
+    seqs = []
+    for i in range(nseq):
+        k = ctx.rng.randint(2, 4)
+        mods = [gen_case(ctx.rng, i, profile="history") for _ in range(k)]
+        second = list(reversed(mods)) if ctx.rng.random() < 0.6 else ctx.rng.sample(mods, k)
+        seqs.append(mods + second)
+        ctx.case({"history": [m["source"] for m in mods + second]}, True)
+        ctx.observe("stream", "history")
+        ctx.observe("history_len", 2 * k)
+        ctx.observe("history_async_decorated", sum("async-decorated" in m["features"] for m in mods))
+        for m in mods:
+            for f in m["features"]:
+                if f.startswith(("async", "deco:", "property-idiom", "accessor", "__all__")):
+                    ctx.observe("history_feature", f)
+    flat = [m for sq in seqs for m in sq]
+    uniq = {}
+    for m in flat:
+        uniq.setdefault(m["source"], m)
+    keys = list(uniq)
+    views, _trees = model_views(ctx, [(k, uniq[k]["mname"], uniq[k]["is_init"]) for k in keys])
+    expected = {k: (norm_model_result(v[0]) if len(v) == 4 else None) for k, v in zip(keys, views)}
+    steps = [dict(_entry(m), executable=m["executable"], check=True, expected=expected[m["source"]]) for m in flat]
+    results = iso_run(ctx.scratch, steps, timeout=900)
+    if results is None or len(results) != len(steps):
+        ctx.tie_failure("harness", "history stream: the fresh interpreter failed", None, None)
+        return
+    ctx.count("history_visits", len(steps))
+    for j, (m, st, r) in enumerate(zip(flat, steps, results)):
+        if not step_failed(r):
+            for n, d, f in r["fails"]:
+                ctx.property_failure(_entry(m), f"{n}: {d}", f)       # known findings only
+            continue
+        verdict, minimal, res = history_triage(ctx, st, flat[:j])
+        ctx.observe("history_verdict", verdict)
+        if verdict == "history":
+            report_history_failure(ctx, m, minimal, res, "history stream")
+        else:
+            small = _entry(m)
+            if r["view_diff"] and not r["raised"]:
+                ctx.tie_failure("correspondence", "visitor machine (model) vs griffe.visit (history stream)", r["view_diff"], small)
+            if r["raised"]:
+                ctx.property_failure(small, "griffe.visit raised " + r["raised"])
+            for n, d, f in r["fails"]:
+                ctx.property_failure(small, f"{n}: {d}" + ("" if verdict == "isolated" else " (seen in a sequence, not reproduced in a fresh interpreter)"), f)
+            if verdict == "isolated":
+                ctx.c01_tainted = True
+        return          # the state of that interpreter is suspect from here on
+
+
+# =====================================================================================================================
 # explore
 # =====================================================================================================================
 def nontrivial_case(case):
@@ -1606,19 +1962,55 @@ def nontrivial_case(case):
     return bool(f & {"class", "if", "if-tc", "try", "for", "while", "with", "match", "chained", "init-attr", "accessor"})
 
 
+def flush_pending(ctx, c, small, expected, hidx, pending, label):
+    """Report the failures of one case.  The first few failing cases of a run are first re-evaluated alone in a fresh
+    interpreter: a failure that does not reproduce there depends on the modules visited before, and is reported as a
+    minimised, self-contained history instead (returns True: the caller stops, this process is tainted)."""
+    if not pending:
+        return False
+    note = " (seen in-process; not re-evaluated in a fresh interpreter)"
+    confirmed = False
+    if getattr(ctx, "c01_triaged", 0) < 3:
+        ctx.c01_triaged = getattr(ctx, "c01_triaged", 0) + 1
+        step = dict(_entry(c), executable=c.get("executable", False), expected=expected)
+        verdict, minimal, res = history_triage(ctx, step, HISTORY[:hidx])
+        ctx.observe("history_verdict", verdict)
+        if verdict == "history":
+            report_history_failure(ctx, c, minimal, res, label + " stream")
+            return True
+        if verdict == "unreproducible":
+            note = " (seen in-process; not reproduced in a fresh interpreter, alone or after the same history)"
+        else:
+            note, confirmed = "", True          # reproduces alone in a fresh interpreter: a self-contained failing input
+    for kind, a, b in pending:
+        if kind == "tie":
+            ctx.tie_failure("correspondence", a, b, small)
+        else:
+            ctx.property_failure(small, a + note, b)
+    if confirmed:
+        ctx.c01_tainted = True                  # one confirmed failing input is enough; later in-process results are suspect
+    return confirmed
+
+
 def check_structural(ctx, cases, label):
     """Model vs implementation, spec vs machine, and the direct checks, on a batch of generated modules."""
-    abss, trees = [], []
-    for c in cases:
-        a, t = abstract_module(c["source"], c["mname"], c["is_init"])
-        abss.append(a)
-        trees.append(t)
-    m_visit = ctx.model([["visit", c["mname"], a] for c, a in zip(cases, abss)])
-    m_spec = ctx.model([["spec", c["mname"], a] for c, a in zip(cases, abss)])
-    m_bind = ctx.model([["bindings", c["mname"], a] for c, a in zip(cases, abss)])
+    views, trees = model_views(ctx, [(c["source"], c["mname"], c["is_init"]) for c in cases])
+    # cross-check of the Coq lowering (raw nodes + regenerated tables) against the harness's own lowering ast -> stmt
+    nx = len(cases) if label == "corpus" else min(len(cases), ctx.budget(40, 150))
+    old = ctx.model([["views", c["mname"], abstract_module(c["source"], c["mname"], c["is_init"])[0]] for c in cases[:nx]])
+    for c, v, o in zip(cases[:nx], views, old):
+        ctx.count("lowering_crosschecked")
+        if v != o:
+            ctx.tie_failure("correspondence", "Coq lowering of raw nodes (Gen/C01_dispatch tables) vs harness lowering ast -> stmt",
+                            first_diff(v, o), {"source": c["source"], "is_init": c["is_init"], "mname": c["mname"]})
     vins = {}
     traces = []
-    for c, a, tree, mv, ms, mb in zip(cases, abss, trees, m_visit, m_spec, m_bind):
+    for c, tree, view in zip(cases, trees, views):
+        if len(view) != 4:
+            ctx.tie_failure("correspondence", "raw module not lowered: the regenerated dispatch tables and the node payloads do not fit",
+                            view, {"source": c["source"], "is_init": c["is_init"], "mname": c["mname"]})
+            continue
+        mv, ms, mb, mc = view
         ctx.case({"source": c["source"], "is_init": c["is_init"]}, nontrivial_case(c))
         ctx.observe("stream", label)
         ctx.observe("lines", min(len(c["source"].splitlines()) // 20 * 20, 200))
@@ -1627,6 +2019,8 @@ def check_structural(ctx, cases, label):
         small = {"source": c["source"], "is_init": c["is_init"], "mname": c["mname"]}
         if mv != ms:
             ctx.tie_failure("correspondence", "extracted machine vs extracted level semantics (theorem C01_type_guard_flag)", first_diff(mv, ms), small)
+        hidx = len(HISTORY)
+        pending = []            # failures of this case, reported once it is known whether they depend on the process history
         try:
             mod, rec = run_griffe(c["source"], c["mname"], filepath_for(ctx.scratch, c))
             iv, perr = impl_view(mod, rec)
@@ -1637,18 +2031,21 @@ def check_structural(ctx, cases, label):
             mod, rec, perr = None, None, []
             iv = ["err", type(e).__name__]
             ctx.observe("impl_outcome", "raises:" + type(e).__name__)
-            ctx.property_failure(small, f"griffe.visit raised {type(e).__name__}: {e}")
+            pending.append(("prop", f"griffe.visit raised {type(e).__name__}: {e}", None))
         mo = norm_model_result(mv)
         d = first_diff(mo, iv)
         if d:
-            ctx.tie_failure("correspondence", "visitor machine (model) vs griffe.visit: members tree / events", d, small)
+            pending.append(("tie", "visitor machine (model) vs griffe.visit: members tree / events", d))
             ctx.count("model_impl_mismatch")
         ctx.observe("model_outcome", mo[0] if mo else "?")
         if mod is None:
+            if flush_pending(ctx, c, small, mo, hidx, pending, label):
+                return
             continue
         ctx.observe("impl_outcome", "ok")
         ctx.observe("events", min(len(rec.calls) // 25 * 25, 300))
         traces.append((iv[5], small))
+        content_check(ctx, mc, mod, small)
         # (O) declarative bindings vs the module level of the implementation: order of first binding, survivor
         if not mb[3]:
             names = mb[1]
@@ -1711,7 +2108,12 @@ def check_structural(ctx, cases, label):
                 ctx.count("oracle_exec_modules")
         for name, detail, finding in fails:
             ctx.observe("direct_fail", name + ("" if finding is None else ":" + finding))
-            ctx.property_failure(small, f"{name}: {detail}", finding)
+            if finding is None:
+                pending.append(("prop", f"{name}: {detail}", None))
+            else:
+                ctx.property_failure(small, f"{name}: {detail}", finding)
+        if flush_pending(ctx, c, small, mo, hidx, pending, label):
+            return
         ctx.count("direct_checked")
         for _p, o, _q in list(walk_objects(mod)) + [((), mod, None)]:
             v = vin_of(o)
@@ -1802,12 +2204,9 @@ def check_totality(ctx, n):
         for _ in range(n):
             src, kinds = gen_total_case(ctx.rng)
             cases.append((src, kinds))
-        absd = []
-        for src, _k in cases:
-            absd.append(abstract_module(src, "m", False)[0])
-        verdicts = ctx.model([["bindings", "m", a] for a in absd])
-        mvis = ctx.model([["visit", "m", a] for a in absd])
-        for (src, kinds), v, mv in zip(cases, verdicts, mvis):
+        views, _trees = model_views(ctx, [(src, "m", False) for src, _k in cases])
+        mvis = [v[0] if len(v) == 4 else ["err", "unlowered"] for v in views]
+        for (src, kinds), mv in zip(cases, mvis):
             ctx.case({"source": src}, len(kinds) > 3)
             ctx.observe("stream", "totality")
             for k in kinds:
@@ -1846,20 +2245,26 @@ def explore(ctx):
     if corpus:
         check_structural(ctx, corpus, "corpus")
     synthetic_visibility(ctx)
+    if not getattr(ctx, "c01_tainted", False):
+        history_stream(ctx)
     n = ctx.budget(700, 9000)
     batch = 350
     done = 0
-    while done < n:
+    while done < n and not getattr(ctx, "c01_tainted", False):
         cases = [gen_case(ctx.rng, done + i) for i in range(min(batch, n - done))]
+        ctx.rng.shuffle(cases)
         check_structural(ctx, cases, "structural")
         done += len(cases)
+    if getattr(ctx, "c01_tainted", False):
+        ctx.notes.append("a failing input was confirmed in a fresh interpreter (alone or as a minimised history): the remaining streams were skipped")
+        return
     check_totality(ctx, ctx.budget(400, 5000))
     if not ctx.quick:
         sample = []
         for _ in range(30):
             c = gen_case(ctx.rng, 0)
             if len(c["source"].splitlines()) < 40:
-                sample.append(["visit", "m", abstract_module(c["source"], "m", c["is_init"])[0]])
+                sample.append(["raw", "m", raw_module(c["source"], "m", c["is_init"])[0]])
         ctx.cross_check_extraction(sample[:12])
 
 
@@ -1881,6 +2286,12 @@ def search(ctx):
         fails = direct_checks(c, tree, mod, rec) + event_checks(mod, rec)
         if c["executable"]:
             fails += runtime_checks(c, tree, mod) or []
+        if any(f is None for _n, _d, f in fails) and getattr(ctx, "c01_triaged", 0) < 5:
+            ctx.c01_triaged = getattr(ctx, "c01_triaged", 0) + 1
+            verdict, minimal, res = history_triage(ctx, dict(_entry(c), executable=c["executable"], expected=None), HISTORY[:-1])
+            if verdict == "history":
+                report_history_failure(ctx, c, minimal, res, "search")
+                return
         for name, detail, finding in fails:
             ctx.property_failure(small, f"{name}: {detail}", finding)
         if ctx.prop_failures:
@@ -1908,6 +2319,22 @@ def replay(ctx, data):
     print("detail:", data.get("detail"))
     c = {"source": src, "mname": case.get("mname", "m"), "is_init": case.get("is_init", False), "executable": True, "features": []}
     ctx.scratch.mkdir(parents=True, exist_ok=True)
+    if case.get("history"):
+        # a history-dependent failure: the module alone, then after the recorded history, each in a fresh interpreter
+        expected = None
+        if ctx.driver is not None:
+            expected = norm_model_result(model_views(ctx, [(src, c["mname"], c["is_init"])])[0][0][0])
+        target = dict(_entry(c), executable=False, check=True, expected=expected)
+        inits = case.get("history_is_init") or [False] * len(case["history"])
+        hist = [{"source": h, "mname": "m", "is_init": bool(i), "check": False} for h, i in zip(case["history"], inits)]
+        for k, h in enumerate(hist):
+            print(f"--- history module {k + 1}:")
+            print(h["source"])
+        alone = iso_run(ctx.scratch, [target])
+        after = iso_run(ctx.scratch, hist + [target])
+        print("alone, fresh interpreter:", "FAILS: " + step_detail(alone[-1]) if alone and step_failed(alone[-1]) else "passes")
+        print("after the history, fresh interpreter:", "FAILS: " + step_detail(after[-1]) if after and step_failed(after[-1]) else "passes")
+        return 0
     try:
         tree = abstract_module(src, c["mname"], c["is_init"])[1]
         mod, rec = run_griffe(src, c["mname"], filepath_for(ctx.scratch, c))
@@ -1917,8 +2344,7 @@ def replay(ctx, data):
     for f in direct_checks(c, tree, mod, rec) + event_checks(mod, rec) + (runtime_checks(c, tree, mod) or []):
         print("direct check:", f)
     if ctx.driver is not None:
-        a, _t = abstract_module(src, c["mname"], c["is_init"])
-        mo = norm_model_result(ctx.model([["visit", c["mname"], a]])[0])
+        mo = norm_model_result(model_views(ctx, [(src, c["mname"], c["is_init"])])[0][0][0])
         iv, _ = impl_view(mod, rec)
         print("model vs impl:", first_diff(mo, iv))
     return 0
